@@ -9,23 +9,35 @@ TECHNIQUE = "explicit-state BFS over operation histories on the real objects vs 
 KINDS = ["fut_ret", "fut_raise", "const", "errfut", "at0_ret", "at0_raise", "at1_ret", "at1_raise",
          "batch_ok", "batch_raise", "item_ok", "item_err",
          # the same failing kinds with an error whose truth value is False (an error must be recognised by `is not None`)
+         # AsyncTasks that can be completed from outside while suspended at their yield: the yield inside try/finally
+         # with a clean finally (control), a finally that raises, a body that swallows GeneratorExit and yields again
+         "at1s_clean", "at1s_finraise", "at1s_swallow",
          "fut_raise_falsy", "errfut_falsy", "at0_raise_falsy", "at1_raise_falsy", "batch_raise_falsy", "item_err_falsy"]
 OPS = [("value",), ("error",), ("call",), ("is_computed",), ("set_value", "v1"), ("set_value", "v2"),
        ("set_error", "e1"), ("set_error", "e2"), ("reset_unsafe",), ("sub", "good"), ("sub", "bad"),
        ("sub", "oneshot")]  # oneshot: a well-behaved callback that unsubscribes itself when notified
 # a task awaits the future through the scheduler: `yield f` / `yield f, f` (the future is on the scheduler's stack twice)
 AWAIT = [("await", 1), ("await", 2)]
+# an external completion (e.g. a cancellation) reaches the task WHILE ITS GENERATOR IS SUSPENDED at a yield: a driver
+# task `yield [T, gate item]` runs on the scheduler, T suspends at its own yield, the gate batch (highest priority) is
+# flushed first and its flush body applies T.set_error(e) / T.set_value(v).  Offered for the item-yielding AsyncTask
+# kinds while T is uncomputed and has not started.
+XSET = [("xset", "set_error", "e1"), ("xset", "set_error", "e2"), ("xset", "set_value", "v1")]
 TAIL = [("is_computed",), ("error",), ("value",), ("call",), ("set_value", "v2"), ("set_error", "e2"),
         ("is_computed",), ("value",), ("error",)]
 DEPTH = {"quick": 5, "thorough": 7}
-RULE = ("for each of 18 object kinds (Future with returning / raising provider, ConstFuture, ErrorFuture, AsyncTask "
+RULE = ("for each of 21 object kinds (Future with returning / raising provider, ConstFuture, ErrorFuture, AsyncTask "
         "without a yield returning / raising, AsyncTask yielding one harness batch item then returning / raising, "
         "harness BatchBase subclass with returning / raising flush body, harness batch item whose batch sets its value / "
-        "its error; each of the 6 failing kinds also with an exception whose truth value is False; e2 is such an "
-        "exception too) ALL histories over the 14-operation alphabet {value(), error(), f(), is_computed(), set_value(v1|v2), "
+        "its error; AsyncTask whose single yield sits in try/finally with a clean finally / a finally that raises / a "
+        "body that swallows GeneratorExit and yields again, so that generator.close() raises; each of the 6 failing kinds "
+        "also with an exception whose truth value is False; e2 is such an exception too) ALL histories over the 17-operation alphabet {value(), error(), f(), is_computed(), set_value(v1|v2), "
         "set_error(e1|e2), reset_unsafe(), a task awaiting the future through the scheduler with `yield f` / `yield f, f` "
-        "(not offered while the future is uncomputed and has no computation left), subscribe well-behaved callback, subscribe callback raising Exception, subscribe one-shot callback that unsubscribes itself when notified} up to "
-        "length 5 (quick) / 7 (thorough) are explored breadth-first on fresh real objects, merging histories only when "
+        "(not offered while the future is uncomputed and has no computation left), set_error(e1|e2) / set_value(v1) reaching an "
+        "item-yielding AsyncTask from outside WHILE ITS GENERATOR IS SUSPENDED at the yield (a driver task awaits [task, gate "
+        "item] on the scheduler and the flush body of the gate batch, flushed first, performs the call; offered while the "
+        "task is uncomputed and has not started), subscribe well-behaved callback, subscribe callback raising Exception, subscribe one-shot callback that unsubscribes itself when notified} up to "
+        "length 5 (quick) / 7 (thorough) (one less for the 6 falsy twins) are explored breadth-first on fresh real objects, merging histories only when "
         "(R4 state, is_computed(), _value, _error, per-subscriber notification counts, provider run count, generator / "
         "batch residue) coincide; every executed history is followed by a fixed 9-operation probe tail on the same live "
         "objects. Every operation is compared with the reference three-state machine R4. evals = histories executed "
@@ -46,13 +58,20 @@ ASSUMPTIONS = [
     "whatever outcome it then takes must be reported consistently from then on",
     "the await operations run a fresh one-statement task on the thread's scheduler; the answer judged is what that task "
     "receives from its yield (value, pair of values, or the error thrown into it)",
+    "the answer of a set_* that completes a suspended task is treated like the answer of the call that performs the "
+    "computation: it may raise whatever generator.close() raised (the clean-up error, or RuntimeError 'generator ignored "
+    "GeneratorExit'); judged are the outcome, the notifications, the refusal of later set_* and what every reader "
+    "(including the driver task that awaited it) sees",
+    "after that operation the thread's scheduler is reset by the harness (the driver ended while the batch of the task's "
+    "own item was never flushed), as it is at the start of every history",
     "a raising subscriber raises an Exception subclass (BaseException subscribers are outside the statement)",
 ]
 
 
 def jobs(tier, seed):
     for k in KINDS:
-        yield {"kind": k, "depth": DEPTH[tier]}
+        # the falsy twins differ from their ordinary kind only where an error's truth value is consulted: one level less
+        yield {"kind": k, "depth": DEPTH[tier] - (1 if k.endswith("_falsy") else 0)}
 
 
 def workers_per_build(tier, nper):
@@ -63,6 +82,10 @@ def workers_per_build(tier, nper):
 def worker_init(env):
     from .. import progx
     progx.worker_init(env)
+    # asynq reports an exception raised by a subscriber with print() + traceback.print_exc(); both streams are already
+    # captured and discarded, formatting the traceback (a third of the run time) is skipped as well
+    import traceback
+    traceback.print_exc = lambda *a, **k: None
 
 
 # ---------------------------------------------------------------------------------------------------------------
@@ -116,6 +139,55 @@ def _harness():
         return w.finish_run(n, raising)
 
     @asynq.asynq()
+    def t1s(w, mode):
+        n = w.begin_run()
+        it = HI(w)
+        w.keep.append(it)
+        if mode == "swallow":
+            try:
+                yield it
+            except BaseException:
+                # "asynchronous clean-up on the way out": ignores GeneratorExit, so generator.close() raises RuntimeError
+                it2 = HI(w)
+                w.keep.append(it2)
+                yield it2
+            return w.finish_run(n, False)
+        try:
+            yield it
+        finally:
+            if mode == "finraise":
+                w.cleanup(n)  # raises: generator.close() raises it too
+        return w.finish_run(n, False)
+
+    class GB(BatchBase):
+        """the gate batch: flushed before any HB batch; its flush body performs the external completion"""
+
+        def __init__(self, w):
+            BatchBase.__init__(self)
+            self.w = w
+
+        def _try_switch_active_batch(self):
+            w = self.w
+            if w.gate is self:
+                w.gate = None
+
+        def get_priority(self):
+            return (1, 0)
+
+        def _flush(self):
+            self.w.gate_body(self)
+
+    class GI(BatchItemBase):
+        def __init__(self, w):
+            if w.gate is None:
+                w.gate = GB(w)
+            BatchItemBase.__init__(self, w.gate)
+
+    @asynq.asynq()
+    def driver(t, gate_item):
+        return (yield [t, gate_item])
+
+    @asynq.asynq()
     def aw(f, twice):
         if twice:
             return (yield f, f)
@@ -126,6 +198,7 @@ def _harness():
 
     _H = NS()
     _H.aw = aw
+    _H.t1s, _H.GI, _H.driver = t1s, GI, driver
     _H.asynq = asynq
     _H.HB, _H.HI, _H.t0, _H.t1 = HB, HI, t0, t1
     _H.none = _none
@@ -171,6 +244,10 @@ class World(object):
         self.runs = []  # product of each provider run: ("v", tok) | ("e", tok) | None (unknown / unfinished)
         self.log = []  # (subscriber id, saw is_computed(), saw outcome)
         self.active = None
+        self.gate = None
+        self.gate_action = None
+        self.gate_reply = None
+        self.driver_reply = None
         self.vals = {"v1": self.T.reg(Val("v1"), "v1"), "v2": self.T.reg(Val("v2"), "v2")}
         # e2 is an exception whose truth value is False (e.g. one carrying an empty list of reasons)
         self.errs = {"e1": self.T.reg(HErr("e1"), "e1"), "e2": self.T.reg(histx.HFalsyErr("e2"), "e2")}
@@ -192,6 +269,8 @@ class World(object):
             self.judge_notify = False
         elif kind in ("at0_ret", "at0_raise"):
             self.obj = H.t0.asynq(self, kind.endswith("raise"))
+        elif kind.startswith("at1s_"):
+            self.obj = H.t1s.asynq(self, kind[5:])
         elif kind in ("at1_ret", "at1_raise"):
             self.obj = H.t1.asynq(self, kind.endswith("raise"))
         elif kind in ("batch_ok", "batch_raise"):
@@ -224,9 +303,27 @@ class World(object):
         self.runs[n] = ("v", ("pv", n))
         return v
 
+    def cleanup(self, n):
+        import sys
+        e = self.T.reg(HErr(("cl", n)), ("cl", n))
+        if sys.exc_info()[0] is not GeneratorExit:
+            self.runs[n] = ("e", ("cl", n))  # on the normal path the failing clean-up is what the body produces
+        raise e
+
+    def gate_body(self, batch):
+        name, arg = self.gate_action
+        t = self.obj
+        self.gate_suspended = (not t.is_computed()) and t._generator is not None and t.iteration_index > 0
+        if name == "set_error":
+            self.gate_reply = call(t.set_error, self.errs[arg])
+        else:
+            self.gate_reply = call(t.set_value, self.vals[arg])
+        for it in batch.items:
+            it.set_value(self.item_value)
+
     def flush_body(self, batch):
         k = self.kind
-        if k in ("at1_ret", "at1_raise"):
+        if k.startswith("at1"):
             # the flush that serves the task's item is not the task's computation: not counted as a run
             for it in batch.items:
                 if not it.is_computed():
@@ -310,8 +407,13 @@ class World(object):
             return not self.obj.batch.is_computed()
         return True
 
+    def can_xset(self):
+        f = self.obj
+        return self.kind.startswith("at1") and self.m.st is None and f._generator is not None and f.iteration_index == 0
+
     def menu(self):
-        return OPS + AWAIT if self.can_await() else OPS
+        ops = OPS + AWAIT if self.can_await() else OPS
+        return ops + XSET if self.can_xset() else ops
 
     def tail(self):
         return TAIL
@@ -336,6 +438,20 @@ class World(object):
             return call(f.reset_unsafe)
         if name == "await":
             return call(self.H.aw, f, op[1] == 2)
+        if name == "xset":
+            H = self.H
+            self.gate_action = (op[1], op[2])
+            self.gate_reply = None
+            self.gate_suspended = False
+            self.driver_reply = call(H.driver, f, H.GI(self))
+            # the driver is over while the batch of T's own item was never flushed: leave a clean scheduler behind
+            H.asynq.scheduler.reset()
+            if self.gate_reply is None:
+                self.trouble.append(("harness", "the gate batch was not flushed (driver answered %r)" % (self.driver_reply,)))
+                return ("ret", None)
+            if not self.gate_suspended:
+                self.trouble.append(("harness", "the task was not suspended at its yield when the gate batch was flushed"))
+            return self.gate_reply
         if name == "sub":
             return call(f.on_computed.subscribe, self._cb(len(self.m.subs), op[1]))
         raise ValueError(op)
@@ -439,8 +555,23 @@ class World(object):
             if druns:
                 V.append(("recomputed", "is_computed() ran the computation"))
             unchanged()
-        elif name in ("set_value", "set_error"):
-            target = ("v" if name == "set_value" else "e", op[1])
+        elif name in ("set_value", "set_error", "xset"):
+            setname, arg = (op[1], op[2]) if name == "xset" else (name, op[1])
+            target = ("v" if setname == "set_value" else "e", arg)
+            if name == "xset":
+                what = "%s(%s) reaching the task while it is suspended at its yield" % (setname, arg)
+                self._stat("judged: completion from outside while the task's generator is suspended")
+                if rep[0] == "exc" and not isinstance(rep[1], self.H.Already):
+                    self._stat("the completing set_* raised what generator.close() raised (answer not judged)")
+                # the driver awaited [T, gate item]: it must see T's outcome like any reader
+                d = self.driver_reply
+                if target[0] == "e":
+                    dok = d[0] == "exc" and T.tok(d[1]) == arg
+                else:
+                    dok = d[0] == "ret" and isinstance(d[1], list) and len(d[1]) == 2 and T.tok(d[1][0]) == arg
+                if not dok and after == target:
+                    V.append(("inconsistent-report", "the task awaiting the future completed with %r received %r"
+                              % (target, (d[0], T.tok(d[1])))))
             already = rep[0] == "exc" and isinstance(rep[1], self.H.Already)
             if before is not None:
                 self._stat("judged: set_* on a computed future")
@@ -498,5 +629,5 @@ def replay(case, env):
 
 
 def finish(acc, tier):
-    return {"bounds": {"history length": DEPTH[tier], "operations": len(OPS) + len(AWAIT), "probe tail": len(TAIL),
+    return {"bounds": {"history length": DEPTH[tier], "operations": len(OPS) + len(AWAIT) + len(XSET), "probe tail": len(TAIL),
                        "object kinds": KINDS}}
